@@ -24,31 +24,35 @@ SPEC = 'Entitlement/Entitlement.tla'
 TRACE = 'Entitlement/EntitlementTrace.tla'
 
 USERS = ('u1', 'u2', 'u3')
-DIRS = ('D1', 'D2', 'D3')
-FILES = ('f1', 'f2', 'f3')
-HOME = {'f1': 'D1', 'f2': 'D2', 'f3': 'D3'}
-ABOVE = {'f1': ('D1',), 'f2': ('D2', 'D1'), 'f3': ('D3',)}
-HASW = {'f1': {'wa', 'all'}, 'f2': {'wa', 'wb', 'all'}, 'f3': {'wb', 'all'}}
+DIRS = ('D1', 'D2', 'D3', 'D4')
+FILES = ('f1', 'f2', 'f3', 'f4')
+HOME = {'f1': 'D1', 'f2': 'D2', 'f3': 'D3', 'f4': 'D4'}
+ABOVE = {'f1': ('D1',), 'f2': ('D2', 'D1'), 'f3': ('D3',), 'f4': ('D4', 'D2', 'D1')}
+# HasW of the spec: the words wa, wb, all and the non-word strings pa, pb (inside wa / wb), sp (from the
+# end of wa over the separator into the next word; only f1 has it)
+HASW = {'f1': {'wa', 'all', 'pa', 'sp'}, 'f2': {'wa', 'wb', 'all', 'pa', 'pb'}, 'f3': {'wb', 'all', 'pb'},
+        'f4': {'wb', 'all', 'pb'}}
 FLAGMAP = {'up': 'UPLOADS', 'search': 'SEARCHES', 'shares': 'SHARES'}
 CLIENT_PORT = 61000
 ST_NAMES = {'VIRGIN', 'QUEUED', 'INITIALIZING', 'UPLOADING', 'COMPLETE', 'FAILED', 'ABORTED', 'PAUSED'}
 
 
 # ---------------------------------------------------------------------------
-# concretisation: the abstract tree  D1/x/f1  D1/<in>/f2 (D2 = D1/<in>)  D3/f3  on disk
+# concretisation: the abstract tree  D1/x/f1  D1/<in>/f2 (D2 = D1/<in>)  D2/<deep>/f4 (D4)  D3/f3  on disk
 # ---------------------------------------------------------------------------
 
 CONCRETE = [
-    dict(users=('alice', 'bob', 'carol'), dirs=('music', 'inner', 'other'), sub='x',
+    dict(users=('alice', 'bob', 'carol'), dirs=('music', 'inner', 'other', 'deep'), sub='x',
          words=dict(wa='alpha', wb='beta', all='tune'),
-         names=('alpha tune one.mp3', 'alpha beta tune two.mp3', 'beta tune three.mp3'), size=1800),
-    dict(users=('Friend One', 'some_stranger', 'X-3'), dirs=('My Music', 'Private Stuff', 'Live Sets'), sub='Disc 1',
-         words=dict(wa='Alpha', wb='BETA', all='Tune'),
-         names=('ALPHA Tune (One).MP3', 'Alpha_BETA-tune [Two].mp3', 'Beta TUNE Three.flac'), size=5000),
-    dict(users=('zoé', 'björn', 'u3'), dirs=('música', 'dentro', 'otra'), sub='y',
+         names=('alpha tune one.mp3', 'alpha beta tune two.mp3', 'beta tune three.mp3', 'tune beta four.mp3'), size=1800),
+    dict(users=('Friend One', 'some_stranger', 'X-3'), dirs=('My Music', 'Private Stuff', 'Live Sessions', 'Very Private'),
+         sub='Disc 1', words=dict(wa='Alpha', wb='BETA', all='Tune'),
+         names=('ALPHA Tune (One).MP3', 'Alpha_BETA-tune [Two].mp3', 'Beta TUNE Three.flac', 'tune.BETA (Four).mp3'),
+         size=5000),
+    dict(users=('zoé', 'björn', 'u3'), dirs=('música', 'dentro', 'otra', 'hondo'), sub='y',
          words=dict(wa='élan', wb='ñandú', all='canción'),
          names=('Élan canción uno.mp3', 'élan Ñandú Canción dos.mp3',
-                'ñandú canciÓn tres.ogg'), size=700),
+                'ñandú canciÓn tres.ogg', 'Canción del ÑANDÚ.mp3'), size=700),
 ]
 
 
@@ -62,14 +66,24 @@ class World:
         self.user = dict(zip(USERS, c['users']))
         self.uid = {v: k for k, v in self.user.items()}
         d1 = os.path.join(self.base, c['dirs'][0])
-        self.dir = {'D1': d1, 'D2': os.path.join(d1, c['dirs'][1]), 'D3': os.path.join(self.base, c['dirs'][2])}
+        d2 = os.path.join(d1, c['dirs'][1])
+        self.dir = {'D1': d1, 'D2': d2, 'D3': os.path.join(self.base, c['dirs'][2]), 'D4': os.path.join(d2, c['dirs'][3])}
         self.did = {v: k for k, v in self.dir.items()}
-        self.words = c['words']
+        self.words = dict(c['words'])
+        # the strings that are no words: cut out of the inside of wa / wb, and running from wa over the
+        # separator into the next word of f1's name
+        wa, wb = self.words['wa'].lower(), self.words['wb'].lower()
+        self.words['pa'] = wa[1:-1] if len(wa) > 3 else wa[1:]
+        self.words['pb'] = wb[1:-1] if len(wb) > 3 else wb[1:]
+        n1 = c['names'][0].lower()
+        i = n1.index(wa) + len(wa)
+        self.words['sp'] = n1[i - 2:i + 3]
         self.fname = dict(zip(FILES, c['names']))
         self.fid = {v: k for k, v in self.fname.items()}
         self.fpath = {'f1': os.path.join(d1, c['sub'], self.fname['f1']),
                       'f2': os.path.join(self.dir['D2'], self.fname['f2']),
-                      'f3': os.path.join(self.dir['D3'], self.fname['f3'])}
+                      'f3': os.path.join(self.dir['D3'], self.fname['f3']),
+                      'f4': os.path.join(self.dir['D4'], self.fname['f4'])}
         self.size = c['size']
         os.makedirs(os.path.join(self.base, 'dl'), exist_ok=True)
         for f, p in self.fpath.items():
@@ -78,10 +92,10 @@ class World:
                 fh.write((f.encode() * self.size)[:self.size])
         # the table the spec calls HasW must be what the names say (built by construction, checked here)
         for f in FILES:
-            rel = os.path.relpath(self.fpath[f], self.base).lower()
+            rel = os.path.relpath(self.fpath[f], self.dir[ABOVE[f][-1]]).lower()     # the longest query path
             for w, word in self.words.items():
                 if (word.lower() in rel) != (w in HASW[f]):
-                    raise MachineryFailure(f'concretisation {idx}: word table broken for {f}/{w}')
+                    raise MachineryFailure(f'concretisation {idx}: word table broken for {f}/{w} ({word!r} in {rel!r})')
 
     def rel(self, f: str, d: str) -> str:
         """path of file f below directory d, remote style"""
@@ -95,7 +109,7 @@ class World:
         w, lower = self.words[ph[0]], bool(ph[1])
         if lower:
             return w.lower()
-        up = (w.upper(), w.title(), w[:-1].lower() + w[-1].upper())[k % 3]
+        up = (w.upper(), w.title(), w[:-1].lower() + w[-1].upper(), w[0].lower() + w[1:].upper())[k % 4]
         return up if up != up.lower() else w.upper()
 
 
@@ -245,11 +259,16 @@ class Peer:
 # ---------------------------------------------------------------------------
 
 class Session:
-    def __init__(self, world: World, rng, probes: int = 2, variants: bool = True, p_quiesce: float = 0.3):
+    def __init__(self, world: World, rng, probes: int = 2, variants: bool = True, p_quiesce: float = 0.3,
+                 slow_close=None):
         self.w = world
         self.rng = rng
         self.probes = probes
         self.p_quiesce = p_quiesce
+        # slow_close: closing a file connection takes until the behaviour says so (at most the library's
+        # 5 s disconnect timeout): an abort of a running upload then suspends the management cycle
+        self.slow_close = (rng.random() < 0.6) if slow_close is None else slow_close
+        self.held = []
         self.variants = variants
         self.events: list[dict] = []
         self.notes: list[str] = []
@@ -357,10 +376,18 @@ class Session:
             try:
                 if st['n'] == 1:
                     st['typ'] = M.PeerInit.Request.deserialize(0, data).typ
+                    if st['typ'] == 'F' and self.slow_close:
+                        # closing this file connection takes until the behaviour says so
+                        link.writers[0].hold_wait_closed = True
+                        self.held.append(link.writers[0])
                 elif st['typ'] == 'F' and st['n'] == 2 and len(data) == 4:
                     tk = struct.unpack('<I', data)[0]
                     st['key'] = peer.offers.get(tk, (None, 0))[0] or (peer.uid, 'none', 'none', 'none')
                 elif st['typ'] == 'F' and st['key'] is not None and data:
+                    if self.slow_close:
+                        # the peer reads slowly: our drain() blocks after this chunk, the upload task
+                        # stays inside send_file until the peer finishes
+                        link.writers[0].paused = True
                     u, f, d, v = st['key']
                     self.log('bytes', u=u, f=f, d=d, v=v, n=len(data))
             except Exception as exc:   # harness-side parsing only
@@ -380,6 +407,17 @@ class Session:
 
     async def settle(self):
         await vloop.settle(self.loop, rounds=600)
+
+    async def release_holds(self, record=True):
+        """the file connections that are being closed are closed now"""
+        waiting = [w for w in self.held if w._wc_gate is not None and not w._wc_gate.done()]
+        for w in waiting:
+            w.release_wait_closed()
+        self.held = [w for w in self.held if w not in waiting and not w.is_closing()]
+        if waiting:
+            if record:
+                self.log('env', what='closed', u='none', f='none', d='none', v='none')
+            await self.settle()
 
     async def _main(self, loop, init, steps):
         from aioslsk.protocol import messages as M
@@ -458,6 +496,9 @@ class Session:
                 await self.settle()
             await self.quiesce()
             await self.battery(full=False)
+            for w in self.held:
+                w.resume()
+                w.release_wait_closed()
             try:
                 await client.stop()
             except Exception as exc:
@@ -579,8 +620,15 @@ class Session:
                 await self.battery(searches_only=True)
         elif name == 'UserMgmtTick':
             await self.wait_tick()
-        elif name == 'Cycle':
+        elif name in ('Cycle', 'CycleBegin'):
+            # the management job runs by itself; give it the time it sleeps between two cycles
             await asyncio.sleep(0.06)
+            await self.settle()
+            if name == 'Cycle' and self.rng.random() < self.p_quiesce:
+                await self.quiesce()
+        elif name == 'AbortsDone':
+            await self.release_holds()
+        elif name == 'CycleEnd':
             await self.settle()
             if self.rng.random() < self.p_quiesce:
                 await self.quiesce()
@@ -614,13 +662,17 @@ class Session:
     async def quiesce(self):
         """let the user-management job see the settings and the management job run, then record the
         upload records (Convergence is judged there)"""
+        await self.release_holds()
         wait = self.last_user_change + 1.1 - self.loop.time()
         if wait > 0:
             await asyncio.sleep(wait)
             await self.settle()
-        for _ in range(3):
+        for i in range(10):
+            await self.release_holds()
             await asyncio.sleep(0.3)
             await self.settle()
+            if i >= 2 and not any(w._wc_gate is not None and not w._wc_gate.done() for w in self.held):
+                break
         ups = [dict(st=t.state.VALUE.name, reason=reason_of(t), **kf)
                for t, kf in self.uploads if t in self.client.transfers.transfers]
         self.log('quiescent', ups=ups)
@@ -753,6 +805,8 @@ class Session:
             if fc is None:
                 return
             self.log('env', what='finish', **kf)
+            fc[0].link.writers[0].resume()                 # the peer reads the rest and closes:
+            fc[0].link.writers[0].release_wait_closed()    # nothing to wait for on our side
             fc[1].set()
         elif name in ('UserAbort', 'UserPause'):
             t, _ = self.find_upload(key)
@@ -794,6 +848,9 @@ P_F1 = ('f1', 'D1', 'exact')
 P_F2a = ('f2', 'D1', 'exact')
 P_F2b = ('f2', 'D2', 'exact')
 P_F3 = ('f3', 'D3', 'exact')
+P_F4 = ('f4', 'D4', 'exact')
+NEST3_INIT = (('D1', 'D2', 'D4'), (('D1', 'everyone'), ('D2', 'friends'), ('D3', 'everyone'), ('D4', 'users')),
+              (('D1', ()), ('D2', ()), ('D3', ()), ('D4', ('u1',))), ('u3',))
 
 # Hand-written behaviours of the model (every step is an enabled action): the histories named in the
 # property's rationale, so that they are replayed in every run whatever the sampling does.
@@ -831,7 +888,37 @@ SCENARIOS = {
         ('SetExcluded', frozenset({('wa', True)})), ('SearchFrom', 'u1', 'all'), ('SearchFrom', 'u2', 'wa'),
         ('SetExcluded', frozenset({('wb', False)})), ('SearchFrom', 'u1', 'all'), ('SearchFrom', 'u2', 'wb'),
         ('SetExcluded', frozenset({('wa', False), ('wb', True)})), ('SearchFrom', 'u1', 'all'), ('SearchFrom', 'u3', 'all'),
-        ('SetExcluded', frozenset()), ('SearchFrom', 'u2', 'all'))),
+        ('SetExcluded', frozenset()), ('SearchFrom', 'u2', 'all'),
+        # phrases that are no words: cut out of a word, running over a word boundary, any letter case
+        ('SetExcluded', frozenset({('pa', True)})), ('SearchFrom', 'u1', 'all'), ('SearchFrom', 'u2', 'wa'),
+        ('SetExcluded', frozenset({('sp', False)})), ('SearchFrom', 'u1', 'all'), ('SearchFrom', 'u3', 'wa'),
+        ('SetExcluded', frozenset({('sp', True), ('pb', False)})), ('SearchFrom', 'u1', 'all'), ('SearchFrom', 'u2', 'wb'),
+        ('SetExcluded', frozenset({('pb', True)})), ('SearchFrom', 'u3', 'all'))),
+    # three nested shared directories EVERYONE > FRIENDS > USERS: the files of a removed directory
+    # belong to the innermost remaining one
+    'three-levels-remove-innermost': (NEST3_INIT, (
+        ('SearchFrom', 'u2', 'all'), ('QueueRequest', 'u1', P_F4), ('RemoveDir', 'D4'), ('SearchFrom', 'u2', 'all'),
+        ('SharesFrom', 'u2'), ('DirFrom', 'u2', 'f4'), ('SearchFrom', 'u3', 'wb'), ('QueueRequest', 'u2', P_F4),
+        ('TransferRequest', 'u3', P_F4), ('Cycle',), ('Quiesce',), ('SharesFrom', 'u3'), ('SearchFrom', 'u1', 'all'))),
+    'three-levels-remove-middle': (NEST3_INIT, (
+        ('QueueRequest', 'u3', ('f2', 'D2', 'exact')), ('RemoveDir', 'D2'), ('SearchFrom', 'u2', 'all'), ('SharesFrom', 'u2'),
+        ('QueueRequest', 'u2', P_F4), ('Cycle',), ('AddDir', 'D2', 'users', frozenset({'u2'})), ('SearchFrom', 'u3', 'all'),
+        ('SharesFrom', 'u1'), ('Cycle',), ('Quiesce',), ('RemoveDir', 'D4'), ('SearchFrom', 'u1', 'all'), ('SearchFrom', 'u3', 'all'),
+        ('Cycle',), ('Quiesce',))),
+    # the management cycle is suspended aborting a running upload (its file connection closes slowly)
+    # while the next change arrives: that change must not be lost
+    'change-during-suspended-abort': (DEFAULT_INIT, (
+        ('QueueRequest', 'u2', P_F1), ('QueueRequest', 'u1', P_F3), ('Cycle',), ('PeerAccept', ('u2', P_F1)),
+        ('PeerAccept', ('u1', P_F3)), ('SetBlock', 'u2', frozenset({'up'})), ('UserMgmtTick',), ('CycleBegin',),
+        ('SetMode', 'D3', 'users'), ('AbortsDone',), ('CycleBegin',), ('Quiesce',))),
+    'change-reverted-during-suspended-abort': (DEFAULT_INIT, (
+        ('QueueRequest', 'u2', P_F1), ('Cycle',), ('PeerAccept', ('u2', P_F1)), ('SetMode', 'D1', 'friends'), ('CycleBegin',),
+        ('SetMode', 'D1', 'everyone'), ('AbortsDone',), ('CycleBegin',), ('Quiesce',))),
+    'unblock-during-suspended-abort': (DEFAULT_INIT, (
+        ('QueueRequest', 'u2', P_F1), ('QueueRequest', 'u1', P_F3), ('Cycle',), ('PeerAccept', ('u1', P_F3)),
+        ('SetBlock', 'u2', frozenset({'up'})), ('UserMgmtTick',), ('CycleBegin',), ('Quiesce',),
+        ('SetFriend', 'u1', False), ('UserMgmtTick',), ('CycleBegin',), ('SetBlock', 'u2', frozenset()), ('UserMgmtTick',),
+        ('AbortsDone',), ('CycleBegin',), ('Quiesce',))),
     'rescan-one-directory': (DEFAULT_INIT, (
         ('QueueRequest', 'u1', P_F3), ('RemoveDir', 'D3'), ('Cycle',), ('AddDir', 'D3', 'friends', frozenset()), ('Cycle',),
         ('ScanDir', 'D3'), ('Cycle',))),
@@ -855,8 +942,11 @@ def collect(chk: Check, thorough: bool):
 
     # counterexamples of the models with one deviation switch in the position of the pinned code
     kf = {}
-    for cfg, prop in (('MC_kf_owner.cfg', 'VisibleOnlyIfEntitledByModeAll'), ('MC_kf_excl.cfg', 'NoExcludedPhraseAll'),
-                      ('MC_kf_dirreply.cfg', 'VisibleOnlyIfEntitledByModeAll'), ('MC_kf_scandir.cfg', 'Convergence')):
+    kfs = [('MC_kf_owner.cfg', 'VisibleOnlyIfEntitledByModeAll'), ('MC_kf_excl.cfg', 'NoExcludedPhraseAll'),
+           ('MC_kf_flags.cfg', 'Convergence')]
+    if thorough:
+        kfs += [('MC_kf_dirreply.cfg', 'VisibleOnlyIfEntitledByModeAll'), ('MC_kf_scandir.cfg', 'Convergence')]
+    for cfg, prop in kfs:
         r = tlc.run_tlc(SPEC, cfg, timeout=600, workers=2)
         hit = [i for i in r.issues if i.name == prop]
         kf[cfg] = bool(hit)
@@ -871,16 +961,21 @@ def collect(chk: Check, thorough: bool):
     # an edge-cover sample of the state graph is replayed
     for label, cfg, expect, npaths in (
             ('Entitlement dirs (nesting, modes, scans; exhaustive)', 'MC_dirs.cfg',
-             ['SetMode', 'AddDir', 'RemoveDir', 'ScanAll', 'ScanDir', 'QueueRequest', 'TransferRequest', 'Cycle',
-              'PeerAccept', 'PeerReject', 'UserAbort', 'UserPause'], 450 if thorough else 150),
+             ['SetMode', 'AddDir', 'RemoveDir', 'ScanAll', 'ScanDir', 'QueueRequest', 'TransferRequest', 'CycleBegin',
+              'CycleEnd', 'AbortsDone', 'PeerAccept', 'PeerReject', 'UserAbort', 'UserPause'], 450 if thorough else 150),
             ('Entitlement users (friends, blocks, ticks; exhaustive)', 'MC_users.cfg',
              ['SetMode', 'SetUsers', 'SetFriend', 'SetBlock', 'UserMgmtTick', 'QueueRequest', 'TransferRequest',
-              'Cycle', 'PeerAccept', 'UserAbort'], 450 if thorough else 150)):
-        g, res = tlc.dump_graph(SPEC, cfg, parse_states='init', coverage=True, timeout=1200)
-        if res.ok:
-            missing = [a for a in expect if res.coverage.get(a, (0, 0))[1] == 0]
-            if missing:
-                raise MachineryFailure(f'vacuity: actions never taken in {cfg}: {missing}')
+              'CycleBegin', 'CycleEnd', 'PeerAccept', 'UserAbort'], 450 if thorough else 150),
+            ('Entitlement three nested directories (exhaustive)', 'MC_nest3.cfg',
+             ['SetMode', 'AddDir', 'RemoveDir', 'ScanAll', 'ScanDir', 'QueueRequest', 'TransferRequest', 'CycleBegin',
+              'CycleEnd'], 200 if thorough else 70)):
+        for attempt in (1, 2):      # a design-model run does not depend on the tree under test: if its
+            g, res = tlc.dump_graph(SPEC, cfg, parse_states='init', coverage=True, timeout=1200)   # output is
+            missing = [a for a in expect if res.coverage.get(a, (0, 0))[1] == 0] if res.ok else []  # cut short,
+            if not missing:                                                                          # run it again
+                break
+            if attempt == 2:
+                raise MachineryFailure(f'vacuity: actions never taken in {cfg}: {missing}\n{res.raw[-1500:]}')
         chk.add_model(label, res)
         paths = tlc.path_cover(g, max_paths=npaths, rng=chk.rng)
         for p in paths:
@@ -888,7 +983,7 @@ def collect(chk: Check, thorough: bool):
         chk.cov[f'graph_{cfg}'] = dict(states=len(g.states), edges=len(g.edges), paths_replayed=len(paths))
 
     # random behaviours of the larger model (with Look steps)
-    num = 1600 if thorough else 260
+    num = 1600 if thorough else 210
     sims, sres = tlc.simulate_behaviours(SPEC, 'MC_sim.cfg', num=num, depth=16, seed=chk.seed + 8, timeout=900)
     for b in sims:
         add(_init_from_state(b[0][1]), steps_of([lab for lab, _ in b[1:]]), 'simulate:MC_sim.cfg')
@@ -931,9 +1026,9 @@ def report_marks(chk: Check, v, traces, metas):
     chk.cov['marks'] = {mk: len(t) for mk, t in sorted(by.items())}
 
 
-def execute(world, init, steps, rng_key, probes):
+def execute(world, init, steps, rng_key, probes, slow_close=None):
     import random
-    sess = Session(world, random.Random(rng_key), probes=probes)
+    sess = Session(world, random.Random(rng_key), probes=probes, slow_close=slow_close)
     ev = sess.run(init, steps)
     return ev, sess
 
@@ -994,7 +1089,8 @@ def replay(chk: Check, data: dict):
     tmp = tempfile.mkdtemp(prefix='c08-')
     try:
         w = World(tmp, int(meta['world']))
-        ev, sess = execute(w, _tuplify(meta['init']), tuple(steps), meta['rng'], int(meta.get('probes', 2)))
+        ev, sess = execute(w, _tuplify(meta['init']), tuple(steps), meta['rng'], int(meta.get('probes', 2)),
+                           meta.get('slow_close'))
     finally:
         shutil.rmtree(tmp, ignore_errors=True)
     chk.count(repr(ev))
@@ -1019,7 +1115,11 @@ def run(chk: Check, args):
                        'after every change and a quiescent snapshot at the end; distinct = distinct recorded traces; '
                        'non-trivial = the trace contains a reply listing, an upload creation/state change or a refusal')
     # ---- design models (the two larger exhaustive ones are run inside collect()) ----
-    r = tlc.model_check(SPEC, 'MC_excl.cfg', expect_actions=['SetExcluded', 'SetBlock'], timeout=1200)
+    try:
+        r = tlc.model_check(SPEC, 'MC_excl.cfg', expect_actions=['SetExcluded', 'SetBlock'], timeout=1200)
+    except tlc.TLCError as exc:     # e.g. a truncated coverage report: once more, then give up with the reason
+        chk.notes.append(f'MC_excl.cfg run repeated after: {str(exc)[:300]}')
+        r = tlc.model_check(SPEC, 'MC_excl.cfg', expect_actions=['SetExcluded', 'SetBlock'], timeout=1200)
     chk.add_model('Entitlement excluded phrases (exhaustive)', r)
     if thorough:
         for label, cfg in (('Entitlement dirs, larger (exhaustive)', 'MC_dirs_big.cfg'),
@@ -1046,11 +1146,13 @@ def run(chk: Check, args):
             for w in ws:
                 rng_key = f'{chk.seed}:{bi}:{w.idx}'
                 probes = 2 if not src.startswith('simulate') else 1
-                ev, sess = execute(w, init, steps, rng_key, probes)
+                slow = True if src.startswith(('scenario', 'counterexample')) else None
+                ev, sess = execute(w, init, steps, rng_key, probes, slow)
                 for u in sess.unhandled:
                     unhandled[u[:160]] = unhandled.get(u[:160], 0) + 1
                 traces.append(ev)
-                metas.append(dict(source=src, world=w.idx, init=init, steps=tlc.to_jsonable(steps), rng=rng_key, probes=probes))
+                metas.append(dict(source=src, world=w.idx, init=init, steps=tlc.to_jsonable(steps), rng=rng_key, probes=probes,
+                                  slow_close=slow))
                 chk.count(tuple(tuple(sorted((k, repr(v)) for k, v in e.items())) for e in ev),
                           nontrivial=any(e['ev'] in ('search', 'shares', 'dir', 'created', 'st', 'qreply', 'treply') for e in ev))
     finally:
@@ -1132,7 +1234,9 @@ def selftest(chk: Check, traces, verdicts):
                 kinds.append('locked->normal')
                 done = True
             elif (kinds.count('abort-dropped') < 3 and e['ev'] == 'st' and e['new'] == 'ABORTED'
-                  and e['reason'] in ('Blocked', 'FileNotShared') and e['old'] in ('QUEUED', 'INITIALIZING', 'UPLOADING')):
+                  and e['reason'] == 'Blocked' and e['old'] in ('QUEUED', 'INITIALIZING', 'UPLOADING')):
+                # (Blocked: a true "File not shared" may also mean that only the remote path went out of
+                # use, which does not oblige the upload to be aborted)
                 # pretend the upload was never aborted: drop the notification, report the old state at
                 # the next quiescent point (only if nothing else happened to the record before it)
                 key = tuple(e[k] for k in 'ufdv')
